@@ -457,3 +457,8 @@ synched = Contract("C12.SynchedStream.__iter__", target=lambda: _SS().__iter__, 
                              ("contig index not advanced after a default", "                    cur_contig_idx += 1", "                    pass")])
 
 CONTRACTS = [included_groups, iter_chromosomes, left_join_c, synched]
+
+
+# --- the genome walk consults the context's ignored set: deriving a more tolerant context must not make the ORIGINAL context tolerant -----------------
+from contracts.c10 import mk_with_ignored       # noqa: E402
+CONTRACTS.append(mk_with_ignored("C12"))
